@@ -210,18 +210,81 @@ fn main() {
         if o.status != 0 || !o.stdout_str().contains("zerv") { ctx.violation("llm_help_failed", "--llm-help".into(), json!({"kind":"proc"}), format!("exit {}", o.status)); }
     }
 
+    // (d) size-bounded inputs through the real binary only (a stack overflow would kill an in-process driver): nesting
+    // depth / chain length n, iterated 8, 64, 512, 4096, 16384, for every recursive input language zerv accepts
+    let s_d = {
+        let sizes: &[usize] = if quick { &[8, 64, 512, 4096] } else { &[8, 64, 512, 4096, 16384, 60000] };
+        let rep = |s: &str, n: usize| s.repeat(n);
+        let mut deep: Vec<(String, Vec<String>, Option<Vec<u8>>)> = vec![];
+        #[allow(unused_mut)]
+        for &n in sizes {
+            let t = |body: String| a(&["version", "--source", "none", "--tag-version", "1.2.3", "--output-template", &body]);
+            deep.push((format!("template-paren n={n}"), t(format!("{{{{ {}1{} }}}}", rep("(", n), rep(")", n))), None));
+            deep.push((format!("template-if n={n}"), t(format!("{}x{}", rep("{% if true %}", n.min(9000)), rep("{% endif %}", n.min(9000)))), None));
+            deep.push((format!("template-for n={n}"), t(format!("{}x{}", rep("{% for i in range(end=1) %}", n.min(3000)), rep("{% endfor %}", n.min(3000)))), None));
+            deep.push((format!("template-plus n={n}"), t(format!("{{{{ 1{} }}}}", rep(" + 1", n.min(30000)))), None));
+            deep.push((format!("template-and n={n}"), t(format!("{{{{ true{} }}}}", rep(" and true", n.min(13000)))), None));
+            // nested function calls: the running time grows ~80x per 4 levels (measured 0.03 s / 3.2 s / > 120 s at depth
+            // 4 / 8 / 12 with the dev-profile binary), so depth is iterated 4, 8 and - thorough only - 12 under the horizon
+            if let Some(d) = match n { 8 => Some(4), 64 => Some(8), 512 if !quick => Some(12), _ => None } {
+                deep.push((format!("template-fn n={d}"), t(format!("{{{{ {}1{} }}}}", rep("hash(value=", d), rep(")", d))), None));
+            }
+            deep.push((format!("template-filter n={n}"), t(format!("{{{{ 1{} }}}}", rep(" | abs", n.min(20000)))), None));
+            deep.push((format!("template-concat n={n}"), t(format!("{{{{ 1{} }}}}", rep(" ~ 1", n.min(30000)))), None));
+            deep.push((format!("template-array n={n}"), t(format!("{{{{ {}{} }}}}", rep("[", n), rep("]", n))), None));
+            deep.push((format!("template-dots n={n}"), t(format!("{{{{ custom{} }}}}", rep(".a", n))), None));
+            deep.push((format!("template-not n={n}"), t(format!("{{{{ {}true }}}}", rep("not ", n.min(30000)))), None));
+            deep.push((format!("custom-json-array n={n}"), a(&["version", "--source", "none", "--tag-version", "1.2.3", "--custom", &format!("{}{}", rep("[", n), rep("]", n))]), None));
+            deep.push((format!("custom-json-object n={n}"), a(&["version", "--source", "none", "--tag-version", "1.2.3", "--custom", &format!("{}1{}", rep("{\"a\":", n.min(20000)), rep("}", n.min(20000)))]), None));
+            deep.push((format!("schema-ron-brackets n={n}"), a(&["version", "--source", "none", "--tag-version", "1.2.3", "--schema-ron", &format!("(core:{})", rep("[", n))]), None));
+            deep.push((format!("schema-ron-components n={n}"), a(&["version", "--source", "none", "--tag-version", "1.2.3", "--schema-ron", &format!("(core:[var(Major)],extra_core:[],build:[{}])", rep("str(\"x\"),", n.min(9000)))]), None));
+            deep.push((format!("branch-rules-parens n={n}"), a(&["flow", "--source", "none", "--tag-version", "1.2.3", "--branch-rules", &format!("[(pattern:{}", rep("(", n))]), None));
+            deep.push((format!("stdin-parens n={n}"), a(&["version", "--source", "stdin"]), Some(rep("(", n).into_bytes())));
+            deep.push((format!("stdin-custom-arrays n={n}"), a(&["version", "--source", "stdin"]), Some(format!("(schema:(core:[var(Major)],extra_core:[],build:[]),vars:(major:Some(1),custom:{}{}))", rep("[", n), rep("]", n)).into_bytes())));
+            deep.push((format!("stdin-components n={n}"), a(&["version", "--source", "stdin"]), Some(format!("(schema:(core:[var(Major)],extra_core:[],build:[{}]),vars:(major:Some(1)))", rep("str(\"x\"),", n)).into_bytes())));
+            deep.push((format!("semver-identifiers n={n}"), a(&["render", &format!("1.0.0-{}a", rep("a.", n.min(2000)))]), None));
+            deep.push((format!("pep440-release n={n}"), a(&["render", "-f", "pep440", &format!("{}1", rep("1.", n.min(2000)))]), None));
+        }
+        for (name, bytes) in [("stdin-invalid-utf8", vec![0xffu8, 0xfe, b'(']), ("stdin-nul", b"(schema:(core:[var(Major)],extra_core:[],build:[]),vars:(major:Some(1)))\0".to_vec()), ("stdin-bom", b"\xef\xbb\xbf(schema:(core:[var(Major)],extra_core:[],build:[]),vars:(major:Some(1)))".to_vec()), ("stdin-crlf", b"(schema:(core:[var(Major)],extra_core:[],build:[]),\r\nvars:(major:Some(1)))\r\n".to_vec()), ("stdin-latin1", b"(schema:(core:[var(Major)],extra_core:[],build:[]),vars:(major:Some(1),bumped_branch:Some(\"\xe9\")))".to_vec())] {
+            for sub in ["version", "flow"] { deep.push((format!("{name} {sub}"), a(&[sub, "--source", "stdin"]), Some(bytes.clone()))); }
+        }
+        // a single argument cannot exceed MAX_ARG_STRLEN (128 KiB) on Linux: larger cases cannot be given to any process
+        deep.retain(|(_, args, _)| args.iter().all(|x| x.len() < 120_000));
+        deep.par_iter().map(|(name, args, stdin)| {
+            let mut st = Stats::default();
+            st.inc("deep_input_runs"); st.inc("process_runs");
+            let o = proc::run(&proc::Run { program: &proc::zerv_bin(), args: args.clone(), stdin: stdin.clone(), env: proc::base_env(), cwd: None, timeout: std::time::Duration::from_secs(120) }).unwrap_or_else(|e| machinery_error(&format!("cannot spawn zerv: {e}")));
+            let key = format!("[deep-input shape={name}] {}", truncate(&args.join(" "), 100));
+            let case = json!({"kind":"deep","shape":name});
+            // explicit horizon: these inputs are at most 120 KB; not terminating within 120 s of CPU on one of them is
+            // the property's "terminates" clause failing, not a machinery problem
+            if o.timed_out { ctx.violation("no_termination_within_horizon", key, case, "zerv was still running after 120 s".into()); return st; }
+            if o.status == 101 || o.status < 0 || o.stderr_str().contains("panicked at") || o.stderr_str().contains("overflowed its stack") {
+                ctx.violation("process_panic_or_abort", key, case, format!("exit {} {}", o.status, truncate(o.stderr_str().trim(), 160)));
+            } else if o.status == 0 {
+                st.inc("process_ok");
+                if o.stdout.is_empty() || !o.stdout.ends_with(b"\n") { ctx.violation("success_without_result_line", key, case, format!("stdout {:?}", truncate(&o.stdout_str(), 80))); }
+            } else {
+                st.inc("process_failed");
+                if !o.stdout.is_empty() { ctx.violation("result_printed_on_failure", key.clone(), case.clone(), format!("exit {} with stdout {:?}", o.status, truncate(&o.stdout_str(), 80))); }
+                if o.stderr.is_empty() { ctx.violation("failure_without_diagnostic", key, case, format!("exit {} with empty stderr", o.status)); }
+            }
+            st
+        }).reduce(Stats::default, Stats::merge)
+    };
+
     // (c) git faults
     let s_c = git_faults(&ctx, quick);
     let _ = std::fs::remove_dir_all(gitx::scratch_root());
 
-    let all = s_a.merge(s_b).merge(s_h).merge(s_c);
+    let all = s_a.merge(s_b).merge(s_h).merge(s_c).merge(s_d);
     let mut cov = Coverage::default();
     cov.evaluations = all.get("inprocess_runs") + all.get("process_runs");
     cov.states = jobs.len() as u64 + all.get("fault_plans");
     cov.transitions = cov.evaluations;
     cov.traces_validated = cov.evaluations;
     cov.distinct_nontrivial = all.get("zerv_error") + all.get("usage_error") + all.get("process_failed") + all.get("fault_plans");
-    cov.rule = format!("(a) flags read from Cli::command() at run time; for version and flow in 4 source contexts every single flag x a {}-value adversarial pool, every pair of flags x a {}-value pool, malformed stdin documents; 133 custom precedence orders (every single, every ordered pair, every all-but-one, reversed) on stdin and via --schema-ron x every bump/override flag x a 5-value pool; render/check on {} nasty version strings x formats x templates; every template function x argument pool singles and pairs: {} in-process runs under catch_unwind; (b) a strided slice of those through the real binary plain and with -v (stdout identical, exit/stream protocol), help/version/llm-help; (c) git faults: for each of 6 repository scenarios x [version, flow] the shim records the N git calls of a fault-free run, then every k<=N x 6 fault modes (deviation 1){}, plus git missing / -C to a missing path / file / non-repository. non-trivial = runs that end in an error path plus fault plans", pool.len(), spool.len(), versions.len(), jobs.len(), if quick { "" } else { " and every pair of fault points in 2 modes (deviation 2)" });
+    cov.rule = format!("(a) flags read from Cli::command() at run time; for version and flow in 4 source contexts every single flag x a {}-value adversarial pool, every pair of flags x a {}-value pool, malformed stdin documents; 133 custom precedence orders (every single, every ordered pair, every all-but-one, reversed) on stdin and via --schema-ron x every bump/override flag x a 5-value pool; render/check on {} nasty version strings x formats x templates; every template function x argument pool singles and pairs: {} in-process runs under catch_unwind; (b) a strided slice of those through the real binary plain and with -v (stdout identical, exit/stream protocol), help/version/llm-help; (c) git faults: for each of 6 repository scenarios x [version, flow] the shim records the N git calls of a fault-free run, then every k<=N x 6 fault modes (deviation 1){}, plus git missing / -C to a missing path / file / non-repository; (d) through the binary only: 21 recursive input shapes (template parentheses / if / for / + / and / function / filter / ~ / array / path / not nesting or chains, custom JSON, --schema-ron, --branch-rules, stdin documents, long SemVer / PEP 440 strings) at sizes 8, 64, 512, 4096 (thorough also 16384, 60000) and stdin byte contents (invalid UTF-8, NUL, BOM, CRLF, Latin-1): zerv must terminate without abort. non-trivial = runs that end in an error path plus fault plans", pool.len(), spool.len(), versions.len(), jobs.len(), if quick { "" } else { " and every pair of fault points in 2 modes (deviation 2)" });
     cov.exhaustive = true;
     cov.samples = vec![json!(jobs[jobs.len() / 2].0), json!(jobs[17].0), json!({"scenario":"ahead+dirty","command":"flow","fault_at":7,"mode":"garbage"})];
     cov.set("clause_counts", all.to_json());
